@@ -314,12 +314,12 @@ def r5_serial_flush(ck, cx):
     n = 0
     for p in cx.enum(f, c, max_depth=0, may_raise=may_raise):
         annotate(p, heap=False)
-        wr = [i for i, ev in enumerate(p.ev) if ev.kind == 'call' and callee_name(ev.node) == 'write' and 'socket' in U(ev.node.func.value)]
+        wr = [i for i, ev in enumerate(p.ev) if ev.kind == 'call' and callee_name(ev.node) == 'write' and 'socket' in U(ev._sub.func.value)]
         if not wr:
             continue
         n += 1
         before = p.ev[:wr[0]]
-        drained = any(ev.kind == 'call' and callee_name(ev.node) in ('read', 'reset_input_buffer', 'flushInput') and 'socket' in U(ev.node.func.value)
+        drained = any(ev.kind == 'call' and callee_name(ev.node) in ('read', 'reset_input_buffer', 'flushInput') and 'socket' in U(ev._sub.func.value)
                       for ev in before)
         nothing = any(ev.kind == 'cond' and ev.a is False and U(ev._sub).replace(' ', '') in ('self._in_waiting()', 'self._in_waiting()>0', 'self._in_waiting()!=0')
                       for ev in before)
